@@ -50,7 +50,7 @@ ASSUMPTIONS = [
 ]
 TRUSTED_BASE = ['vf/sim/vloop.py', 'CPython asyncio', 'the body/driver instrumentation in this file']
 SHARDS = {'quick': 1, 'thorough': 16}
-TIMEOUT = {'quick': 300, 'thorough': 1500}
+TIMEOUT = {'quick': 900, 'thorough': 1500}
 FLOORS = {
     'evaluations': 1000,
     'distinct': 500,
